@@ -14,7 +14,10 @@ TRUSTED = [
     "Lean 4 kernel; axioms propext, Classical.choice, Quot.sound only (audited per theorem each run)",
     "tie T2: hand models concatCore/stackCore (coordinate offsets, inserted coordinate, sorted=(axis==0) claim), triuCore/trilCore (mask, sorted=True claim), "
     "diagonalCore/diagonalizeCore compared with the implementation on representation",
-    "GCXS joiners (indptr splicing) are covered by the NumPy oracle and the canonicity checker only",
+    "tie T2 (GCXS): hand model SparseV.Model.GcxsJoin (every member through change_compressed_axes((axis,)), the indptr splice with running "
+    "offsets, stack = reshape to a unit axis + the same splice) compared with sparse.concatenate / sparse.stack of GCXS members on the returned "
+    "(data, indices, indptr, shape, compressed_axes, fill); the splice loop is also replayed on the members' recorded (indptr, nnz) pairs; "
+    "joins with 1-d members, axis=None, COO/GCXS mixes and a non-default compressed_axes= go through COO / extra conversions: NumPy oracle only",
 ]
 
 
@@ -97,6 +100,52 @@ def leg_a(ctx, rng, n):
         ctx.case(f"A:{op}", case)
         if out.get("ok") != want:
             ctx.fail("A", f"model:{op}", case, f"model {str(out)[:500]} implementation {str(want)[:500]}")
+
+
+def leg_gcxs(ctx, rng, n):
+    """GCXS members of rank 2-3 (every compressed_axes each, empty members, zero extents): model vs implementation on
+    representation; the splice is checked separately on the (indptr, nnz) pairs of the members after
+    change_compressed_axes((axis,))"""
+    import sparse
+    import gx
+
+    reqs, metas = [], []
+    for _ in range(n):
+        op = str(rng.choice(["concat", "stack"]))
+        shp = gen.shape(rng, 2, 3, extents=[0, 1, 2, 2, 3])
+        nd = len(shp)
+        fill = int(rng.choice([0, 0, 2]))
+        axis = int(rng.integers(0, nd)) if op == "concat" else int(rng.integers(0, nd + 1))
+        k = int(rng.integers(1, 5))
+        xs = []
+        for _ in range(k):
+            s_ = list(shp)
+            if op == "concat":
+                s_[axis] = int(rng.choice([0, 1, 2, 3]))
+            d = gen.dense(rng, tuple(s_), fill)
+            ch = gen.compressed_axes_choices(nd)
+            xs.append(sparse.GCXS.from_numpy(d, compressed_axes=ch[int(rng.integers(len(ch)))], fill_value=fill))
+        raw_axis = axis - (nd if op == "concat" else nd + 1) if rng.random() < 0.3 else axis
+        xj = [gx.gcxs_json(x) for x in xs]
+        case = {"op": op, "xs": xj, "axis": raw_axis}
+        try:
+            r = sparse.concatenate(xs, axis=raw_axis) if op == "concat" else sparse.stack(xs, axis=raw_axis)
+        except Exception as e:  # noqa: BLE001
+            ctx.fail("A", f"model:gcxs_{op}", case, f"implementation raised {type(e).__name__}: {e}")
+            continue
+        reqs.append([f"gx_{op}", xj, axis])
+        metas.append((f"gcxs_{op}", case, {"ok": gx.gcxs_json(r)}))
+        if op == "concat":
+            # the splice on its own: members brought to compressed_axes=(axis,), then the loop of common.py
+            ms = [x.change_compressed_axes((axis,)) for x in xs]
+            pairs = [[[int(v) for v in m.indptr], int(m.nnz)] for m in ms]
+            reqs.append(["gx_splice", pairs])
+            metas.append(("kernel:splice", {"members": pairs}, {"ok": [int(v) for v in r.indptr]}))
+    outs = ctx.driver.run(reqs)
+    for (fam, case, want), out in zip(metas, outs):
+        ctx.case(f"A:{fam}", case)
+        if out != want:
+            ctx.fail("A", f"model:{fam}", case, f"model {str(out)[:500]} implementation {str(want)[:500]}")
 
 
 def leg_c(ctx, rng, n):
@@ -209,10 +258,13 @@ def leg_c(ctx, rng, n):
 def run(ctx):
     ctx.trusted = TRUSTED
     ctx.assumptions = ["NumPy's functions on the densified inputs are the specification; diagonalize is judged against its documented definition"]
-    core.prove(ctx, PID, uses=[])
+    core.prove(ctx, PID, extra_targets=["SparseV.Props.C09Gcxs"], uses=[])
     rng = gen.rng_for(ctx.seed, PID)
     leg_a(ctx, rng, 600 if ctx.quick else 6000)
+    leg_gcxs(ctx, gen.rng_for(ctx.seed, PID + ":gcxs"), 400 if ctx.quick else 5000)
     leg_c(ctx, rng, 700 if ctx.quick else 8000)
     ctx.cov["rule"] = ("leg A: concatenate/stack of 1-4 COO members (empty members, length-0 axes, negative axes), triu/tril for k in [-5,5], diagonal over "
-                       "all offsets in [-n-1,n+1] and both axis orders, diagonalize: model vs implementation on representation; leg C: the same functions "
+                       "all offsets in [-n-1,n+1] and both axis orders, diagonalize: model vs implementation on representation; leg A (GCXS): concatenate/stack of 1-4 "
+                       "GCXS members of rank 2-3 (every compressed_axes, empty members, zero extents, negative axis): model vs implementation on (data, indices, "
+                       "indptr, shape, compressed_axes, fill), and the indptr splice on the members' (indptr, nnz) pairs; leg C: the same functions "
                        "plus take, concat, axis=None, format mixes COO/GCXS(any compressed axes), narrow index dtypes, mixed fills vs NumPy; distinct by hash")
